@@ -240,7 +240,7 @@ type pfGen struct {
 	epoch int
 }
 
-const pfEpoch = 5
+const pfEpoch = 6
 
 func (g *pfGen) pick(ss []string) string { return ss[g.rng.Intn(len(ss))] }
 func (g *pfGen) chance(pct int) bool     { return g.rng.Intn(100) < pct }
